@@ -200,6 +200,37 @@ Theorem C01_doc_conformance_refuted_int8 : enc_doc (TPrim PInt8) (VInt 1) <> enc
 Proof. exact enc_doc_differs_int8. Qed.
 Print Assumptions C01_doc_conformance_refuted_int8.
 
+(* the encoding is unambiguous: for every type, two well-typed values whose encodings - each followed by ANY bytes - coincide
+   are the same value followed by the same bytes; so distinct values have distinct encodings (nothing is lost on the wire) and
+   no encoding is a proper prefix of another (consequences of the round trip, stated about the writer alone) *)
+From YV Require Import Proofs.BinaryInjective Proofs.WireCasts.
+Theorem C01_encoding_unambiguous : forall t v1 v2 r1 r2,
+  has_type t v1 = true -> has_type t v2 = true -> enc t v1 ++ r1 = enc t v2 ++ r2 -> v1 = v2 /\ r1 = r2.
+Proof. exact enc_prefix_free. Qed.
+Print Assumptions C01_encoding_unambiguous.
+
+(* ... and at protocol level: two accepted write histories that produce the same stream deliver the same values to the reader *)
+Theorem C01_stream_determines_reads : forall schema p ws1 ws2,
+  steps_ok p ws1 = true -> steps_ok p ws2 = true ->
+  enc_protocol schema p ws1 = enc_protocol schema p ws2 -> map sread_of ws1 = map sread_of ws2.
+Proof. exact enc_protocol_inj. Qed.
+Print Assumptions C01_stream_determines_reads.
+
+(* the two's-complement views used by the fixed-width paths (C++ static_cast, struct/numpy views) are mutually inverse on the
+   documented ranges at EVERY width w > 0, and a k-byte little-endian signed integer round-trips for every k >= 1 *)
+Theorem C01_casts_inverse_every_width : forall w, 0 < w ->
+  (forall z, in_range_s w z = true -> to_signed w (to_unsigned w z) = z) /\
+  (forall n, n < 2 ^ w -> to_unsigned w (to_signed w n) = n /\ in_range_s w (to_signed w n) = true).
+Proof.
+  intros w Hw. split; [intros z Hz; exact (to_signed_unsigned w z Hw Hz)|].
+  intros n Hn. split; [exact (to_unsigned_signed w n Hw Hn) | exact (to_signed_range w n Hw)].
+Qed.
+Print Assumptions C01_casts_inverse_every_width.
+Theorem C01_le_signed_roundtrip : forall k z, (1 <= k)%nat -> in_range_s (8 * N.of_nat k) z = true ->
+  to_signed (8 * N.of_nat k) (le_dec (le_enc k (to_unsigned (8 * N.of_nat k) z))) = z.
+Proof. exact le_signed_roundtrip. Qed.
+Print Assumptions C01_le_signed_roundtrip.
+
 (* non-vacuity *)
 Example C01_hyp_sat :
   steps_ok [SValue (TRec [TPrim PString; TOpt (TPrim PInt32)]); SStream (TUnion true [TPrim PFloat32; TVec (TPrim PUint16)])]
